@@ -21,6 +21,7 @@ type HarnessSpec struct {
 	Domain     Domain
 	RoundModel bool
 	NonFinite  bool
+	RealInputs bool // Float64Grid/Float64Range inputs are arbitrary REALS of the range (superset of the grid): pure NRA queries
 	Tiers      string   // "" both; "quick"; "thorough"
 	Covers     []string // witnesses that must be hit (vacuity guard)
 	MaxSteps   int
@@ -48,6 +49,7 @@ func main() {
 	maxPaths := flag.Int("max-paths", 0, "abort after this many paths")
 	replay := flag.String("replay", "", "replay a violation file natively")
 	noEvidence := flag.Bool("no-evidence", false, "do not write evidence (debug)")
+	params := flag.String("param", "", "debug only: name=value,... overrides for sym.Param")
 	vacuity := flag.Bool("vacuity", false, "vacuity twin: every harness must report its final assert(false) as violated")
 	flag.Parse()
 
@@ -78,6 +80,13 @@ func main() {
 		cfg.Solver = SolverCVC5
 	}
 	currentTier = *tier
+	debugParams = map[string]int64{}
+	for _, kv := range strings.Split(*params, ",") {
+		if i := strings.Index(kv, "="); i > 0 {
+			v, _ := strconv.ParseInt(kv[i+1:], 10, 64)
+			debugParams[kv[:i]] = v
+		}
+	}
 	t0 := time.Now()
 	eng, err := LoadEngine(cfg, *verif)
 	if err != nil {
@@ -362,6 +371,7 @@ type replayFile struct {
 }
 
 var currentTier = "quick"
+var debugParams = map[string]int64{}
 
 func writeReplay(v *Violation, prop string) {
 	rf := replayFile{Property: prop, Harness: v.Harness, Kind: v.Kind, Label: v.Label, Site: v.Site, Where: v.Where, Tags: v.Tags, Inputs: v.Inputs, Order: v.Order, Tier: currentTier}
@@ -551,6 +561,14 @@ func writeEvidence(verif string, spec CheckSpec, cfg Config, all []*HarnessStats
 			"max_instructions_on_a_path": st.MaxSteps, "unknown_branches_kept_both_sides": st.UnknownBranches,
 			"uninterpreted_float_ops": st.UFOps, "ideal_arithmetic_ops": st.IdealOps, "ideal_arithmetic_comparisons": st.IdealCmps,
 			"rn53_rounded_ops": st.RoundedOps, "permitted_panics(MayPanic)": st.PermittedPanics,
+		}
+		if len(st.Replaced) > 0 {
+			var rs []string
+			for k := range st.Replaced {
+				rs = append(rs, k)
+			}
+			sort.Strings(rs)
+			h["functions_replaced_by_harness_summaries"] = rs
 		}
 		if len(st.InexactSites) > 0 {
 			h["inexact_sites"] = st.InexactSites
